@@ -151,6 +151,34 @@ impl<'memo> ErasedMemo<'memo> {
         unsafe { self.data.cast::<MemoHeader>().as_ref() }
     }
 
+    /// Verification hook: a read-only summary of the memo's bookkeeping.
+    #[cfg(feature = "salsa_verif")]
+    pub(crate) fn verif_summary(self) -> crate::verif::MemoSummary {
+        let header = self.header();
+        crate::verif::MemoSummary {
+            has_value: self.has_value(),
+            verified_final: header
+                .revisions
+                .verified_final
+                .load(std::sync::atomic::Ordering::Relaxed),
+            verified_at: header.verified_at.load().as_usize(),
+            changed_at: header.revisions.changed_at.as_usize(),
+            durability: header.revisions.durability.index() as u8,
+            untracked: header.revisions.is_derived_untracked(),
+            cycle_heads: header
+                .revisions
+                .cycle_heads()
+                .iter()
+                .map(|head| format!("{:?}", head.database_key_index))
+                .collect(),
+            inputs: header
+                .origin()
+                .inputs()
+                .map(|key| format!("{key:?}"))
+                .collect(),
+        }
+    }
+
     /// Returns whether the memo currently contains a value.
     #[inline]
     pub(super) fn has_value(self) -> bool {
